@@ -125,9 +125,26 @@ func TestC07(t *testing.T) {
 		}
 		cases = append(cases, mon.CaseSpec{Name: "concurrent-broadcast", Spec: sp})
 	}
+	// ---- surveys sent with SendMsg using a Message whose Header is not empty ----
+	for i := 0; i < r.Pick(72, 1800); i++ {
+		sp := c07Spec{Mode: "hdr", NCtx: 1 + rnd.Intn(3), NPipes: 1 + rnd.Intn(3), NOps: 3 + rnd.Intn(6)}
+		for j := 0; j < sp.NCtx; j++ {
+			ms := 0
+			if (i+j)%4 == 3 {
+				ms = -1
+			}
+			sp.Short = append(sp.Short, ms)
+		}
+		if i%4 == 1 {
+			sp.Tr, sp.NPipes = trs[rnd.Intn(len(trs))], 1
+		}
+		cases = append(cases, mon.CaseSpec{Name: "survey-with-header", Spec: sp})
+	}
 	r.Run(cases, func(c *mon.Case) {
 		sp := c.Spec.(c07Spec)
 		switch sp.Mode {
+		case "hdr":
+			c07Hdr(c, sp)
 		case "retime":
 			c07Retime(c, sp)
 		case "bcast":
